@@ -506,7 +506,7 @@ func vxNewState(failures *[]string, total *int, comparisons *int) *vxState {
 // nodes): how a multi-edge or a self loop is counted by Degrees in direction both, and whether a slice handed out by an
 // accessor may be written to by the caller. They are counted as notes, never as failures.
 var vxOutsideTheStatement = map[string]bool{
-	"degrees-both-counts-edges-csr": true, "degrees-both-counts-edges-projection": true,
+	"degrees-both-counts-edges-csr": true, "degrees-both-counts-edges-projection": true, "degrees-both-counts-edges-projection taken first": true,
 	"slice-append-csr": true, "slice-overwrite-csr": true,
 }
 
@@ -665,12 +665,28 @@ func vxOpsString(ops []vxOp) string {
 	return strings.Join(parts, " ")
 }
 
-var vxContainerNames = []string{"adjacencymap", "csr", "triplestore", "projection"}
+// "projection taken first": a projection (two empty deletion sets) obtained from the still empty store and looked at
+// once - nodes, edges, counts - BEFORE anything is built. A projection keeps a reference to its store and to the deletion
+// sets it was given (it copies neither), so it presents whatever the store holds at the time it is asked; whatever it is
+// asked first, its node set, its node count and its adjacency must describe the same graph afterwards.
+var vxContainerNames = []string{"adjacencymap", "csr", "triplestore", "projection", "projection taken first"}
 
 func vxBuild(ops []vxOp) map[string]DirectedGraph {
 	am := NewAdjacencyMapGraph()
 	csrB := NewCSRDigraphBuilder()
 	ts := NewTriplestore()
+	early := ts.Projection(cardinality.NewBitmap64(), cardinality.NewBitmap64())
+	early.EachNode(func(uint64) bool { return true })
+	early.EachEdge(func(Edge) bool { return true })
+	early.NumNodes()
+	early.NumEdges()
+	for _, op := range ops {
+		if !op.node {
+			for _, d := range vxDirs {
+				early.EachAdjacentNode(op.a, d, func(uint64) bool { return true })
+			}
+		}
+	}
 	for _, op := range ops {
 		if op.node {
 			am.AddNode(op.a)
@@ -685,6 +701,7 @@ func vxBuild(ops []vxOp) map[string]DirectedGraph {
 	return map[string]DirectedGraph{
 		"adjacencymap": am, "csr": csrB.Build(), "triplestore": ts,
 		"projection": ts.Projection(cardinality.NewBitmap64(), cardinality.NewBitmap64()),
+		"projection taken first": early,
 	}
 }
 
